@@ -31,6 +31,7 @@ registry! {
     c09 => "C09",
     c10 => "C10",
     c11 => "C11",
+    c12 => "C12",
     c13 => "C13",
     c18 => "C18",
     c19 => "C19",
